@@ -148,7 +148,7 @@ class Ref:
             for i, e in enumerate(vis):
                 if (mask >> i) & 1:
                     l.remove(e)
-            return "%d [%s]" % (7 if 0 <= k < len(order) else 0, ",".join(map(str, vis)))
+            return "%d [%s]" % ((-3 if k % 2 else 7) if 0 <= k < len(order) else 0, ",".join(map(str, vis)))
         if o == "find":
             order = list(l) if w[2] == "f" else list(reversed(l))
             for e in order:
